@@ -40,6 +40,12 @@ func runC01(opt *Options) int {
 	// default constructors (error targets of every signature combination) and declared-signature variants
 	convs = append(convs, layerb.FamilyDefault(false)...)
 	convs = append(convs, layerb.FamilySignature(false)...)
+	// enum conversions (switch statements over members: duplicate cases, unexported members)
+	for _, c := range layerb.FamilyEnum(false) {
+		if strings.HasSuffix(c.ID, "/top") || strings.HasSuffix(c.ID, "/field") {
+			convs = append(convs, c)
+		}
+	}
 	// odd but well-typed programs: whatever goverter emits for them must type-check
 	convs = append(convs, layerb.FamilyOddities()...)
 	lb := &lbRun{Opt: opt, Convs: convs, Check: func(pc *layerb.PathCtx) {}, Bounds: layerb.Bounds{MaxSlice: 0, MaxMap: 0, RecDepth: 0}}
@@ -105,6 +111,8 @@ func runC01(opt *Options) int {
 			{Name: "K8.getpackages", Pkg: "config", Harness: "VerifHarness_C15_GetPackages", Unwind: 64, NoMapPermute: true},
 			// the names of all declared methods (update methods included) are reserved before helpers are named
 			{Name: "K8.setup", Pkg: "generator", Harness: "VerifHarness_C17_Setup", Unwind: 16},
+			// helper names are unique per output package: one namer per output package, whatever the declaring package
+			func() layera.Kernel { k := kernelFileManager(); k.E2E = "c01"; return k }(),
 			// loop index / map / helper names never repeat within a method (declared twice, shadowed)
 			{Name: "K9.namerloops", Pkg: "namer", Harness: "VerifHarness_C13_NamerLoops", Unwind: 200, LoopsBounded: true},
 		},
